@@ -39,6 +39,10 @@ import (
 var hammerObjs = []string{"mpnext", "mprand", "mpboth", "strrand", "tmplfuncs", "tmplhttp", "tmplhtml", "tmplgrpc", "clientpool",
 	"nextid", "samplepool", "dnscache", "schedonce", "schedline", "schedunlim", "schedcomp", "posthdr", "postbody", "preproc"}
 
+// hammerVerdict: set by an object whose calls have a joint result to check when all goroutines are done ("" = fine);
+// a child process runs one case
+var hammerVerdict func() string
+
 // hammerBody returns the operation goroutine g performs at its i-th call (the shared object is created once, here).
 func hammerBody(obj string) (body func(g, i int) error, cleanup func()) {
 	cleanup = func() {}
@@ -113,8 +117,27 @@ func hammerBody1(obj string, cleanup *func()) func(g, i int) error {
 		}
 		return func(g, i int) error { _ = p.Next(); return nil }
 	case "nextid":
+		// the ammo id counter of a provider: every Acquire of every instance takes the next id; no two ammo may get the same
+		// one (an id is what ties a sample to its ammo), however the increments interleave
 		b := &base.ProviderBase{}
-		return func(g, i int) error { _ = b.NextID(); return nil }
+		ids := make([][]uint64, 64)
+		hammerVerdict = func() string {
+			seen := map[uint64]bool{}
+			dup := 0
+			for _, l := range ids {
+				for _, id := range l {
+					if seen[id] {
+						dup++
+					}
+					seen[id] = true
+				}
+			}
+			if dup > 0 {
+				return fmt.Sprintf("dup:%d", dup)
+			}
+			return ""
+		}
+		return func(g, i int) error { ids[g%64] = append(ids[g%64], b.NextID()); return nil }
 	case "samplepool":
 		// Acquire takes a sample from the package pool; the real phout aggregator puts every reported sample back
 		a, err := netsample.NewPhout(afero.NewMemMapFs(), netsample.PhoutConfig{Destination: "phout.log", SampleQueueSize: 1024})
@@ -285,6 +308,11 @@ func runHammerInProc(kv map[string]string) string {
 	for _, e := range errs {
 		if e != nil {
 			res = "err"
+		}
+	}
+	if res == "-" && hammerVerdict != nil {
+		if v := hammerVerdict(); v != "" {
+			res = v
 		}
 	}
 	return fmt.Sprintf("run=%s calls=%d", res, total)
